@@ -47,11 +47,14 @@ type SchedCase struct {
 	// FreshTag: the call under test gets a new stop-tag object (injected under the same name
 	// on the same data context) instead of the reset object of the earlier call
 	FreshTag bool `json:"fresh_tag,omitempty"`
+	// PriorEM (pools): the execution model the pool is constructed with and serves the earlier
+	// call in; SetExecModel(EM) follows before the call under test
+	PriorEM int `json:"prior_em,omitempty"`
 }
 
 // genPrior draws, in a quarter of the cases, an earlier call of any execute method.
 func genPrior(t *rapid.T, c *SchedCase) {
-	if !pct(t, "prior", 25) {
+	if !pct(t, "prior", 25) && !(c.Pool && strings.Contains(c.Call.Method, "SpecifiedEM") && pct(t, "prior_for_pool_em", 50)) {
 		return
 	}
 	ms := gx.MethodNames(c.Pool)
@@ -77,6 +80,9 @@ func genPrior(t *rapid.T, c *SchedCase) {
 	}
 	c.Prior = &call
 	c.FreshTag = rapid.Bool().Draw(t, "fresh_tag")
+	if c.Pool && (strings.Contains(c.Call.Method, "SpecifiedEM") || pct(t, "prior_em", 50)) {
+		c.PriorEM = uni(t, "prior_em_model", 1, 4)
+	}
 	for i, r := range c.Rules {
 		if pct(t, fmt.Sprintf("prior_fail%d", i), 30) {
 			c.PriorFails = append(c.PriorFails, r.Name)
@@ -347,7 +353,11 @@ func install(c *SchedCase, env *schedEnv) (*schedTarget, error) {
 		return nil, fmt.Errorf("case without builds")
 	}
 	if c.Pool {
-		p, err := engine.NewGenginePool(c.PoolMin, c.PoolMax, c.EM, rulesTextOld(c.Rules, c.Builds[0], c.OldSal)+removedText(c.Removed), env.apis())
+		em := c.EM
+		if c.Prior != nil && c.PriorEM >= 1 && c.PriorEM <= 4 {
+			em = c.PriorEM // the pool starts in another model and is switched after the earlier call
+		}
+		p, err := engine.NewGenginePool(c.PoolMin, c.PoolMax, em, rulesTextOld(c.Rules, c.Builds[0], c.OldSal)+removedText(c.Removed), env.apis())
 		if err != nil {
 			return nil, fmt.Errorf("NewGenginePool: %v", err)
 		}
@@ -757,6 +767,13 @@ func checkSched(x *Ctx, c *SchedCase) (*models.Input, bool) {
 			}
 			if err := tg.applyBuilds(c, n, len(c.Builds)); err != nil {
 				x.Violation("install", "valid generated rule text was rejected: %v", err)
+				return nil, false
+			}
+		}
+		if tg.pool != nil && c.PriorEM >= 1 && c.PriorEM <= 4 && c.PriorEM != c.EM {
+			x.Class("pool-execution-model-switched-between-two-calls")
+			if err := tg.pool.SetExecModel(c.EM); err != nil {
+				x.Violation("install", "SetExecModel(%d) failed: %v", c.EM, err)
 				return nil, false
 			}
 		}
